@@ -14,7 +14,7 @@ def sh(cmd, timeout=3600):
     return r.returncode, r.stdout, time.time() - t0
 
 readme = open(os.path.join(sd, "demo", "README.md")).read()
-m = re.search(r"cargo test ((?:--release )?(?:--offline )?(?:--release )?-p \S+ --test \S+)", readme)
+m = re.search(r"cargo test ((?:--release )?(?:--offline )?(?:--release )?-p \S+(?: --features \S+)? --test \S+)", readme)
 sel = m.group(1).replace("--offline ", "")
 name = re.search(r"--test (\S+)", sel).group(1)
 demo_files = [f for f in os.listdir(os.path.join(sd, "demo")) if f.endswith(".rs")]
